@@ -296,6 +296,30 @@ func (g *cubicGen) rttSample() {
 	g.dist["rtt-sample"]++
 }
 
+// opHystartBurst: eight RTT samples just around the delay-increase threshold of hybrid slow
+// start (min RTT + clamp(min RTT/8, 4ms, 16ms)), each followed by MaybeExitSlowStart.
+func (g *cubicGen) opHystartBurst() {
+	r := g.r
+	mn := int64(g.v.Rtt.MinRTT())
+	thrUs := mn / 1000 / 8
+	if thrUs > 16000 {
+		thrUs = 16000
+	}
+	if thrUs < 4000 {
+		thrUs = 4000
+	}
+	off := r.Pick(1, 1, 1, 0, 1000, 5_000_000)
+	for j := 0; j < 8+r.Intn(2); j++ {
+		d := mn + thrUs*1000 + off
+		if r.Chance(1, 12) {
+			d += r.Pick(-1, -1000, 1)
+		}
+		g.v.Rtt.UpdateRTT(durationNs(d), 0)
+		g.dist["rtt-sample"]++
+		g.opExitSS()
+	}
+}
+
 func (g *cubicGen) opExitSS() {
 	lat, mn := int64(g.v.Rtt.LatestRTT()), int64(g.v.Rtt.MinRTT())
 	b := g.v.State()
@@ -705,9 +729,13 @@ func runCubic(w *bufio.Writer, seed uint64, n int, _ []string) {
 				}
 			case x < 90:
 				// hystart: a burst of RTT samples within one round
-				for j := 0; j < 9; j++ {
-					g.rttSample()
-					g.opExitSS()
+				if r.Chance(1, 2) {
+					g.opHystartBurst()
+				} else {
+					for j := 0; j < 9; j++ {
+						g.rttSample()
+						g.opExitSS()
+					}
 				}
 			default:
 				g.opQuery()
